@@ -60,6 +60,7 @@ package act
 //@   ensures [disabled_child_stays_down] result.do == supActionStartChild ==> !result.spec.disabled
 //@   ensures [one_for_one_touches_only_that_child] forall i int :: 0 <= i && i < len(s.spec) && s.spec[i].Name != name && old(s.spec[i].pid) != pid ==> s.spec[i].pid == old(s.spec[i].pid)
 //@   ensures [disabled_child_exit_is_quiet] !old(s.shutdown) && (exists i int :: 0 <= i && i < len(s.spec) && (s.spec[i].Name == name || old(s.spec[i].pid) == pid)) && (forall i int :: 0 <= i && i < len(s.spec) && (s.spec[i].Name == name || old(s.spec[i].pid) == pid) ==> old(s.spec[i].disabled)) ==> result.do != supActionTerminateChildren && result.do != supActionStartChild && (result.do == supActionTerminate ==> s.autoshutdown)
+//@   ensures [significant_child_ends_the_supervisor] !old(s.shutdown) && (old(s.restart.Strategy) == SupervisorStrategyTemporary || (old(s.restart.Strategy) == SupervisorStrategyTransient && (reason == gen.TerminateReasonNormal || reason == gen.TerminateReasonShutdown))) && (exists i int :: 0 <= i && i < len(s.spec) && (s.spec[i].Name == name || old(s.spec[i].pid) == pid)) && (forall i int :: 0 <= i && i < len(s.spec) && (s.spec[i].Name == name || old(s.spec[i].pid) == pid) ==> !old(s.spec[i].disabled) && old(s.spec[i].Significant)) ==> (result.do == supActionTerminate || result.do == supActionTerminateChildren) && result.reason == reason
 //@   ensures [new_shutdown_awaits_every_running_child] !old(s.shutdown) && s.shutdown ==> forall i int :: 0 <= i && i < len(s.spec) && s.spec[i].pid != gen.PID{} ==> has(s.wait, s.spec[i].pid)
 //@   ensures [shutdown_terminates_when_last_child_is_gone] old(s.shutdown) ==> (result.do == supActionTerminate <==> len(s.wait) == 0) && (result.do == supActionTerminate ==> result.reason == old(s.shutdownReason))
 //@   ensures [exceeded_reason_is_kept] result.do == supActionTerminateChildren && result.reason == ErrSupervisorRestartsExceeded ==> s.shutdown && s.shutdownReason == ErrSupervisorRestartsExceeded
@@ -86,6 +87,7 @@ package act
 //@   loop 1 invariant [flags_untouched] forall i int :: 0 <= i && i < len(s.spec) ==> s.spec[i].disabled == old(s.spec[i].disabled) && s.spec[i].Significant == old(s.spec[i].Significant) && s.spec[i].Name == old(s.spec[i].Name)
 //@   at call supCheckRestartIntensity assert [configured_window] period == int(s.restart.Period) && intensity == int(s.restart.Intensity) && restarts == s.restarts
 //@   ensures [disabled_child_exit_is_quiet] old(s.mode) == 0 && (exists i int :: 0 <= i && i < len(s.spec) && (s.spec[i].Name == name || old(s.spec[i].pid) == pid)) && (forall i int :: 0 <= i && i < len(s.spec) && (s.spec[i].Name == name || old(s.spec[i].pid) == pid) ==> old(s.spec[i].disabled)) ==> result.do != supActionTerminateChildren && result.do != supActionStartChild && (result.do == supActionTerminate ==> s.autoshutdown)
+//@   ensures [significant_child_ends_the_supervisor] old(s.mode) == 0 && (old(s.restart.Strategy) == SupervisorStrategyTemporary || (old(s.restart.Strategy) == SupervisorStrategyTransient && (reason == gen.TerminateReasonNormal || reason == gen.TerminateReasonShutdown))) && (exists i int :: 0 <= i && i < len(s.spec) && (s.spec[i].Name == name || old(s.spec[i].pid) == pid)) && (forall i int :: 0 <= i && i < len(s.spec) && (s.spec[i].Name == name || old(s.spec[i].pid) == pid) ==> !old(s.spec[i].disabled) && old(s.spec[i].Significant)) ==> (result.do == supActionTerminate || result.do == supActionTerminateChildren) && result.reason == reason
 //@   ensures [new_shutdown_awaits_every_running_child] old(s.mode) != 3 && s.mode == 3 ==> forall i int :: 0 <= i && i < len(s.spec) && s.spec[i].pid != gen.PID{} ==> has(s.wait, s.spec[i].pid)
 //@   ensures [temporary_never_restarts] old(s.restart.Strategy) == SupervisorStrategyTemporary && old(s.mode) == 0 ==> result.do != supActionStartChild
 //@   ensures [transient_restarts_only_after_abnormal_end] old(s.restart.Strategy) == SupervisorStrategyTransient && old(s.mode) == 0 && (reason == gen.TerminateReasonNormal || reason == gen.TerminateReasonShutdown) ==> result.do != supActionStartChild
